@@ -1639,7 +1639,7 @@ impl GRLParser {
                 }
                 "schedulerule" | "schedule_rule" => {
                     // Parse delay and target rule: ScheduleRule(5000, "next-rule")
-                    let parts: Vec<&str> = args_str.split(',').collect();
+                    let parts: Vec<&str> = Self::split_arguments(args_str);
                     if parts.len() != 2 {
                         return Err(RuleEngineError::ParseError {
                             message: "ScheduleRule requires delay_ms and rule_name".to_string(),
